@@ -9,7 +9,7 @@ TR == ndJsonDeserialize("trace.ndjson")
 VARIABLE t
 TInit == /\ t \in 1..Len(TR) /\ signed = TR[t].signed /\ actual = TR[t].actual /\ mode = TR[t].mode
          /\ off = StartOff /\ cache = <<>>
-         /\ remaining = OpSize /\ outp = <<>> /\ result = "run"
+         /\ remaining = OpSize /\ outp = <<>> /\ result = "run" /\ eofd = TR[t].eofd
 TNext == Next /\ UNCHANGED t
 TSpec == TInit /\ [][TNext]_<<vars, t>>
 Viol == (IF TR[t].result = "ok" /\ TR[t].out # Expected THEN {"NeverSilentlyWrong"} ELSE {})
